@@ -77,8 +77,23 @@ def main():
         cmdf = os.path.join(dst, "demo_cmd.txt")
         if not skip_demo and os.path.exists(cmdf):
             cmds = open(cmdf).read()
-            if orig_wt:
-                cmds = cmds.replace(orig_wt + "/SEED", dst).replace(orig_wt, wt)
+            # the deliverables name the author's worktree; run from a scratch copy with every path rewritten to OUR scratch worktree
+            origin = meta.get("origin_worktree") or orig_wt or ("/tmp/seed_%s" % sid)
+            meta["origin_worktree"] = origin
+            run_dir = "/tmp/sv_%s_seed" % sid
+            shutil.rmtree(run_dir, ignore_errors=True)
+            shutil.copytree(dst, run_dir)
+            for root, _, fs in os.walk(run_dir):
+                for f in fs:
+                    fp = os.path.join(root, f)
+                    try:
+                        t = open(fp).read()
+                    except Exception:
+                        continue
+                    t2 = t.replace(origin + "/SEED", run_dir).replace(origin, wt)
+                    if t2 != t:
+                        open(fp, "w").write(t2)
+            cmds = cmds.replace(origin + "/SEED", run_dir).replace(origin, wt)
             lines = [l for l in cmds.splitlines() if l.strip() and not l.strip().startswith("#")]
             script = "\n".join(lines)
             open("/tmp/sv_%s_demo.sh" % sid, "w").write("set -e\n" + script + "\n")
@@ -92,6 +107,7 @@ def main():
             sh("git apply %s" % os.path.join(dst, "patch.diff"), cwd=wt)
             ran.append("demonstration: with patch rc=%d, without patch rc=%d" % (rc1, rc2))
             os.unlink("/tmp/sv_%s_demo.sh" % sid)
+            shutil.rmtree("/tmp/sv_%s_seed" % sid, ignore_errors=True)
         # remove the cmake build before running checks (disk)
         shutil.rmtree(os.path.join(wt, "_build"), ignore_errors=True)
         res = meta.get("verif_results", {})
